@@ -94,6 +94,26 @@ def walkBack (h : Heap) (head : Nat) : Nat → Nat → Option (List Nat)
 def clearEntries (h : Heap) (head : Nat) (L : List Nat) : Heap :=
   initHead (L.foldl (fun acc x => setNext (setPrev acc x none) x none) h) head
 
+/-- the loop of `GenNodeList::ClearEntries()` statement by statement (`while( gnPrev != head ) { gnPrev->prev = 0;
+    gnPrev->next = 0; gnPrev = gn; gn = gn->Next(); }`), with fuel; `none` = a null dereference or fuel exhausted -/
+def clearLoop (head : Nat) : Nat → Heap → Nat → Nat → Option Heap
+  | 0, _, _, _ => none
+  | f + 1, h, gnPrev, gn =>
+    if gnPrev = head then some h else
+    let h2 := setNext (setPrev h gnPrev none) gnPrev none
+    match (h2 gn).next with
+    | none => none
+    | some g' => clearLoop head f h2 gn g'
+
+/-- `GenNodeList::ClearEntries()`: `gnPrev = head->Next(); gn = gnPrev->Next();` the loop; `head->next = head; head->prev = head;` -/
+def clearEntriesLoop (h : Heap) (head : Nat) (fuel : Nat) : Option Heap :=
+  match (h head).next with
+  | none => none
+  | some gnPrev =>
+    match (h gnPrev).next with
+    | none => none
+    | some gn => (clearLoop head fuel h gnPrev gn).map fun h' => initHead h' head
+
 /-! ### Representation -/
 
 /-- `a`'s successor is `b` and `b`'s predecessor is `a` -/
